@@ -73,6 +73,8 @@ PROPS: dict[str, dict] = {}
 
 def engine_prop(pid, monitors, fields, ops, results=False, quick=320, thorough=16000, profile=None,
                 technique='', note=''):
+    if not os.path.exists(os.path.join(fw.LEAN, 'PK', 'Audit', f'{pid}.lean')):
+        return      # no theorem yet: not claimed
     PROPS[pid] = dict(kind='engine', monitors=monitors, fields=fields, ops=ops, results=results,
                       quick=quick, thorough=thorough, profile=profile, technique=technique, note=note)
 
